@@ -179,20 +179,25 @@ def r1_copy_before_mutate(ctx):
 
 def r2_self_threading_agrees(ctx):
     repo = ctx.repo
-    eg = entrygen(ctx)
-    gen = eg.fi
-    ctx.touch(gen)
-    # generator: declaration list and forwarded list both start with the self slot under is_method
-    inits = {}
-    for s in ast.walk(gen.node):
-        if isinstance(s, ast.Assign) and isinstance(s.targets[0], ast.Name) and s.targets[0].id in (eg.args, eg.posargs) and isinstance(s.value, ast.List):
-            inits[s.targets[0].id] = s.value
-    ok = True
-    for name in (eg.args, eg.posargs):
-        v = inits.get(name)
-        good = v is not None and len(v.elts) == 1 and isinstance(v.elts[0], ast.IfExp) and str_value(v.elts[0].body) == "self" and src(v.elts[0].test).endswith(".is_method") and str_value(v.elts[0].orelse) == ""
-        ok = ok and good
-    ctx.ob(f"{gen.key}:self-slot", gen.loc(), "for methods, the generated entry point both declares `self` first and forwards it first", ok, "the entry point declares `self` but does not forward it (or the reverse): the selected method is called without the instance, or with the first argument in its place")
+    def _skel(ctx_):
+        eg = entrygen(ctx)
+        gen = eg.fi
+        ctx.touch(gen)
+        # generator: declaration list and forwarded list both start with the self slot under is_method
+        inits = {}
+        for s in ast.walk(gen.node):
+            if isinstance(s, ast.Assign) and isinstance(s.targets[0], ast.Name) and s.targets[0].id in (eg.args, eg.posargs) and isinstance(s.value, ast.List):
+                inits[s.targets[0].id] = s.value
+        ok = True
+        for name in (eg.args, eg.posargs):
+            v = inits.get(name)
+            good = v is not None and len(v.elts) == 1 and isinstance(v.elts[0], ast.IfExp) and str_value(v.elts[0].body) == "self" and src(v.elts[0].test).endswith(".is_method") and str_value(v.elts[0].orelse) == ""
+            ok = ok and good
+        ctx.ob(f"{gen.key}:self-slot", gen.loc(), "for methods, the generated entry point both declares `self` first and forwards it first", ok, "the entry point declares `self` but does not forward it (or the reverse): the selected method is called without the instance, or with the first argument in its place")
+
+    from .c03 import _with_fallback
+
+    _with_fallback(ctx, ("signature", "full-call"), _skel)
     # rewriter: the replacement call starts with self exactly for methods (abstract execution)
     from .rewriter import law_self_first
 
